@@ -43,6 +43,9 @@ PIPES = {
     # same steps as P1, other options
     "P1b": ([TIP, "correct_force_offset", "correct_tip_offset"],
             {"correct_tip_offset": {"method": "frechet_direct_path"}}),
+    # same steps and option KEYS as P1b, another inner value
+    "P1d": ([TIP, "correct_force_offset", "correct_tip_offset"],
+            {"correct_tip_offset": {"method": "gradient_zero_crossing"}}),
     # same steps as P1, options for a step that is not in the list (ignored
     # by the steps, but a different pipeline VALUE)
     "P1c": ([TIP, "correct_force_offset", "correct_tip_offset"],
@@ -379,7 +382,8 @@ def resolve_rater(rid):
 SLICES = {
     # preprocessing requests (valid / rejected), also through fit_model and
     # through a caller-owned (steps, options) object that is edited in place
-    "pre": dict(pipes=["P0", "P1", "P2", "P1b"], badpipes=["B1", "B2", "B3"],
+    "pre": dict(pipes=["P0", "P1", "P2", "P1b", "P1d"],
+                badpipes=["B1", "B2", "B3"],
                 keys={"model_key": ["m_para", "m_cone"]},
                 raters=["R_et"], mutate_pl=True, fitpre1=True),
     "pre2": dict(pipes=["P0", "P1", "P1c", "P3"],
